@@ -205,7 +205,7 @@ Proof.
 Qed.
 
 (* ---- one step of the driver preserves the invariant and makes progress ------------------------------------ *)
-Ltac d_cbn := cbn [to_state of_state finish set_th release_ik with_pc persisted v_last v_lasttx v_pending v_batch v_iks v_refs v_revs v_locks v_queue v_cs v_uid gen threads published u_persisted u_last u_lasttx u_pending u_batch u_iks u_refs u_revs u_locks u_queue u_cs u_uid u_threads u_published t_req t_pc t_postings t_unb t_view t_entry t_txid t_granted t_resp t_gen b_ik b_ref b_lock b_rev b_pre andb orb negb recheck mem_N mem_nat existsb is_tx_kind is_rev app filter fst snd] in *.
+Ltac d_cbn := cbn [to_state of_state finish set_th release_ik with_pc persisted v_last v_lasttx v_pending v_batch v_iks v_refs v_revs v_locks v_queue v_cs v_uid gen threads published u_persisted u_last u_lasttx u_pending u_batch u_iks u_refs u_revs u_locks u_queue u_cs u_uid u_threads u_published t_req t_pc t_postings t_unb t_view t_entry t_txid t_granted t_resp t_gen t_cancelled b_ik b_ref b_lock b_rev b_pre andb orb negb recheck mem_N mem_nat existsb is_tx_kind is_rev app filter fst snd] in *.
 
 Ltac atom c :=
   lazymatch c with
